@@ -4,10 +4,11 @@
   * the roles the emitted problems give to the two sides (premises of a direction are axioms,
     the other side's public definitions and constraints are the conjectures), via the
     decomposition theorems of C19;
-  * a kernel-checked counterexample showing that the property is FALSE on the unchanged tree
-    (known finding): clashing private predicate names are renamed onto each other. A second defect
-    was repaired (`fix:` 82641ae): an output predicate absent from one program got no completed
-    definition, the forward direction emitted no problem at all; it is now completed to false
+  * the two defects that made the property FALSE on the unchanged tree were repaired:
+    clashing private predicate names were renamed onto each other (`fix:` 06d5e1b; now
+    `private_renaming_fresh`, `one_interpretation_carries_both_readings`, `rename_clash_now_separated`),
+    and an output predicate absent from one program got no completed definition, the forward
+    direction emitted no problem at all (`fix:` 82641ae); it is now completed to false
     (`missing_output_now_refutable`), and the theorems carry the matching clause `OutputsEmpty`.
   * `external_refutes_programs` (restricted form of the model-theoretic statement): for a task that
     compares two programs, without placeholders and without a proof outline, tightness not
@@ -56,6 +57,7 @@ import AnthemModel.Proofs.ExternalSemPh
 import AnthemModel.Proofs.ExternalOutlineTask
 import AnthemModel.Proofs.PrivateUnique
 import AnthemModel.Proofs.RenameFresh
+import AnthemModel.Proofs.ExternalProgramLevel
 namespace Anthem.C02
 open Asp
 
@@ -292,6 +294,75 @@ theorem one_interpretation_carries_both_readings (t : ExternalTask) (TL TR : Pre
       (∀ (q : String) (a : List Dom), (⟨q, a.length⟩ : Pred) ∈ ext t.userGuide.publicPreds t.progPrivate →
         (renamedInterp t.clashMap T q a ↔ TR q a)) :=
   joint_reading t TL TR hagree
+
+/-- **Private extents always exist**: without private recursion (which the task checks), whatever
+    the extents of the other predicates, the private predicates have extents that satisfy all their
+    completed definitions (and by `private_extents_unique` exactly one such family on the program's
+    vocabulary). So the private definitions that an emitted problem takes as axioms never make it
+    vacuous. -/
+theorem private_definitions_satisfiable (P : Asp.Program) (priv : List Pred)
+    (hrec : hasPrivateRecursion P priv = false) (T0 : PredI) (fc : FcI) :
+    ∃ T : PredI,
+      (∀ (q : String) (ds : List Dom), (⟨q, ds.length⟩ : Pred) ∉ priv → (T q ds ↔ T0 q ds)) ∧
+      ∀ q ∈ priv, DefHolds P T fc q.symbol q.arity :=
+  private_extents_exist P priv hrec T0 fc
+
+/-- **"Hence if every emitted problem is a theorem the claimed relation holds"** - the property's
+    conclusion stated about the two programs alone, with no interpretation of the emitted problems left
+    in the statement (program against program, no placeholders, no proof outline, tightness not
+    bypassed, simplification off; every decomposition and eq-break setting; `hnc`: the decidable side
+    condition that `rename_conflicting_symbols` is the identity). If no interpretation refutes an emitted
+    problem, then
+    * forward: every stable model of the specification program whose input facts and constants satisfy
+      the user-guide assumptions has the same public part (extents of the input and output predicates)
+      as some stable model of the program, and
+    * backward: the same with the two programs exchanged.
+    Rests on `external_refutes_programs`, `private_definitions_satisfiable` and
+    `one_interpretation_carries_both_readings` (which needs the repaired private renaming). -/
+theorem valid_problems_imply_external_equivalence (t : ExternalTask) (PL : Asp.Program)
+    (hspec : t.specification = .inl PL) (hph : t.userGuide.placeholders = []) (hpo : t.proofOutline = [])
+    (hbyp : t.bypassTightness = false) (hsimp : t.simplify = false)
+    (fuel : Nat) (ps : List Problem) (h : externalProblems t fuel = .ok ps)
+    (hnc : ∀ ΓL ΓR, theoryTranslate t t.phMap fuel PL = .ok ΓL → theoryTranslate t t.phMap fuel t.program = .ok ΓR →
+      NoSymbolConflictGen (assembledGen t (leftSide t ΓL) t.ugAss ΓR))
+    (hvalid : ∀ (J : Interp) (ρ : Asg), ¬ ∃ P ∈ ps, Refutes J ρ P) :
+    ((t.direction = .universal ∨ t.direction = .forward) →
+      ∀ (TL : PredI) (fc : FcI) (ρ : Asg),
+        (∀ a ∈ t.userGuide.formulas, a.role = .assumption → sat ⟨TL, fc⟩ a.formula ρ) →
+        Stable PL t.userGuide.inputs TL fc →
+        ∃ TR : PredI, Stable t.program t.userGuide.inputs TR fc ∧
+          ∀ (q : String) (ds : List Dom), (⟨q, ds.length⟩ : Pred) ∈ t.userGuide.publicPreds → (TR q ds ↔ TL q ds)) ∧
+    ((t.direction = .universal ∨ t.direction = .backward) →
+      ∀ (TR : PredI) (fc : FcI) (ρ : Asg),
+        (∀ a ∈ t.userGuide.formulas, a.role = .assumption → sat ⟨TR, fc⟩ a.formula ρ) →
+        Stable t.program t.userGuide.inputs TR fc →
+        ∃ TL : PredI, Stable PL t.userGuide.inputs TL fc ∧
+          ∀ (q : String) (ds : List Dom), (⟨q, ds.length⟩ : Pred) ∈ t.userGuide.publicPreds → (TL q ds ↔ TR q ds)) :=
+  ⟨fun hdir => external_forward_sound_programs t PL hspec hph hpo hbyp hsimp fuel ps h hdir hnc hvalid,
+   fun hdir => external_backward_sound_programs t PL hspec hph hpo hbyp hsimp fuel ps h hdir hnc hvalid⟩
+
+/-- Non-vacuity of the hypotheses of `valid_problems_imply_external_equivalence`: the task that compares
+    `p(X) :- q(X).` with itself (input `q/1`, `p/1` private on both sides, no output) is accepted and
+    emits no problem at all, so "no emitted problem is refuted" holds, and the theorem applies:
+    every stable model of the program has the public part of a stable model of the program. -/
+def sameTask : ExternalTask :=
+  { specification := .inl [⟨.basic ⟨"p", [.var "X"]⟩, [.lit ⟨.pos, ⟨"q", [.var "X"]⟩⟩]⟩]
+    program := [⟨.basic ⟨"p", [.var "X"]⟩, [.lit ⟨.pos, ⟨"q", [.var "X"]⟩⟩]⟩]
+    userGuide := [.input ⟨"q", 1⟩]
+    proofOutline := []
+    decomposition := .sequential, direction := .universal, rep := .tauStar
+    bypassTightness := false, simplify := false, breakEq := false }
+
+example : (match externalProblems sameTask 8 with | .ok ps => ps.length == 0 | _ => false) = true := by decide
+
+example (ps : List Problem) (h : externalProblems sameTask 8 = .ok ps) :
+    ∀ (J : Interp) (ρ : Asg), ¬ ∃ P ∈ ps, Refutes J ρ P := by
+  have hd : (match externalProblems sameTask 8 with | .ok ps => ps.length == 0 | _ => false) = true := by decide
+  rw [h] at hd
+  have : ps = [] := List.eq_nil_of_length_eq_zero (by simpa using hd)
+  subst this
+  intro J ρ ⟨P, hP, _⟩
+  cases hP
 
 /-- Whatever the decomposition, the problems of the final family of a direction are refuted by the
     interpretations that satisfy all premises and falsify some conclusion (C19 applied to the
